@@ -112,28 +112,38 @@ def rule_subs(r):
     for s in pf.walk_stmts(ms):
         if isinstance(s, ast.Assign) and isinstance(s.targets[0], ast.Name):
             assigns.setdefault(s.targets[0].id, []).append(s)
-    # reference lists come from the base table through subs
-    for name, lst in (("refs", "base_table.form_volume_parameters"), ("model_refs", "base_table.iq_parameters"),
-                      ("qxy_refs", "base_table.orientation_parameters")):
-        ss = assigns.get(name, [])
-        ok = bool(ss) and all(pf.is_text(s.value, "_call_pars(%s, subs)" % lst) for s in ss)
-        r.check(ok, G, "make_source", "%s = _call_pars(%s, subs)" % (name, lst), ss[0].lineno if ss else ms.lineno,
-                "call arguments are the base model's parameters, each replaced by its translation")
+    # reference lists come from the base table through subs (whatever the lists are called)
+    ref_vars = {}
+    for name, ss in assigns.items():
+        for st in ss:
+            if isinstance(st.value, ast.Call) and pf.call_name(st.value) == "_call_pars":
+                a = [pf.unparse(x) for x in st.value.args]
+                ref_vars[name] = a
+                r.check(len(a) == 2 and a[0].startswith("base_table.") and a[1] == "subs", G, "make_source",
+                        "%s = _call_pars(%s)" % (name, ", ".join(a)), st.lineno,
+                        "call arguments are the base model's parameters, each replaced by its translation")
+    got_lists = {a[0] for a in ref_vars.values()}
+    for lst in ("base_table.form_volume_parameters", "base_table.iq_parameters", "base_table.orientation_parameters"):
+        r.check(lst in got_lists, G, "make_source", "reference list for %s" % lst, ms.lineno)
     # every macro string that names a model function is formatted from those lists only
-    macro_vars = ("call_volume", "call_radius_effective", "call_iq", "call_iqxy")
-    allowed = {"refs", "model_refs", "qxy_refs", "pars"}
-    for mv in macro_vars:
-        for s in assigns.get(mv, []):
-            names = pf.names_in(s.value) - {"is_hollow"}
-            bad = {n for n in names if n not in allowed}
-            uses_call_table = "call_table" in pf.unparse(s.value)
-            r.check(not bad and not uses_call_table, G, "make_source", "%s = %s" % (mv, pf.unparse(s.value)[:70]), s.lineno,
-                    "macro text built only from the substituted reference lists" if not bad else "reads %s directly" % sorted(bad))
-    for s in assigns.get("pars", []):
-        if isinstance(s.value, ast.Call) and pf.unparse(s.value.func) == "','.join":
-            names = pf.names_in(s.value)
-            r.check(names <= {"model_refs", "qxy_refs", "refs"}, G, "make_source", pf.unparse(s)[:80], s.lineno,
-                    "argument list = q arguments + substituted references")
+    FUNCS = ("form_volume(", "shell_volume(", "radius_effective(", "Iq(", "Fq(", "Iqac(", "Iqabc(", "Iqxy(")
+    allowed = set(ref_vars) | {"is_hollow"}
+    join_vars = {}
+    for name, ss in assigns.items():
+        for st in ss:
+            if isinstance(st.value, ast.Call) and pf.unparse(st.value.func) == "','.join":
+                join_vars[name] = st
+                names = pf.names_in(st.value)
+                r.check(names <= set(ref_vars), G, "make_source", pf.unparse(st)[:80], st.lineno,
+                        "argument list = q arguments + substituted references" if names <= set(ref_vars) else "reads %s" % sorted(names - set(ref_vars)))
+    for name, ss in assigns.items():
+        for st in ss:
+            txt = pf.unparse(st.value)
+            if "#define CALL_" in txt and any(f_ in txt for f_ in FUNCS):
+                names = pf.names_in(st.value)
+                bad = {n for n in names if n not in allowed and n not in join_vars}
+                r.check(not bad and "call_table" not in txt, G, "make_source", "%s = %s" % (name, txt[:70]), st.lineno,
+                        "macro text built only from the substituted reference lists" if not bad else "reads %s directly" % sorted(bad))
     txt = pf.unparse(ms)
     r.check("(subs, translation_vars, valid) = _build_translation(model_info, '_v')" in txt or
             "subs, translation_vars, valid = _build_translation(model_info, '_v')" in txt, G, "make_source",
